@@ -527,8 +527,38 @@ def c15(ctx):
     variants += [(s, False, True) for s in all_shapes(6 if quick else 7)]
     ctx.notes["rotation_variants"] = {"plain": len(shs), "duplicate_ids": len(all_shapes(5 if quick else 7)),
                                       "expression_classes": len(all_shapes(6 if quick else 7))}
+    # deep trees (64 .. 140 levels: long sums and products, nested groups): left / right chains, zig-zags and
+    # combs; rotated at the nodes around levels 62-66, around level 100 and at the deepest ones
+    def deep_shape(kind, depth):
+        s_ = (0, None, None)
+        for d_ in range(depth):
+            leaf = (0, None, None)
+            if kind == "left":
+                s_ = (0, s_, None)
+            elif kind == "right":
+                s_ = (0, None, s_)
+            elif kind == "zigzag":
+                s_ = (0, s_, None) if d_ % 2 else (0, None, s_)
+            elif kind == "comb-left":
+                s_ = (0, s_, leaf)
+            else:
+                s_ = (0, leaf, s_)
+        return label(s_)
+    deep_nodes = {}
+    for kind in ("left", "right", "zigzag", "comb-left", "comb-right"):
+        for depth in ((66, 140) if quick else (64, 65, 66, 70, 100, 140, 300)):
+            ds = deep_shape(kind, depth)
+            by_depth = {}
+            for nid, d_ in order(ds, "pre"):
+                by_depth.setdefault(d_, []).append(nid)
+            picks = []
+            for d_ in (1, 2, 31, 32, 33, 62, 63, 64, 65, 66, 99, 100, 101, depth - 1, depth):
+                picks += by_depth.get(d_, [])[:2]
+            deep_nodes[id(ds)] = picks
+            variants.append((ds, False, False))
+    ctx.notes["rotation_variants"]["deep_shapes"] = len(deep_nodes)
     for s, dup_ids, as_expr in variants:
-        for i in ids_of(s):
+        for i in deep_nodes.get(id(s), None) or ids_of(s):
             nodes = {}
             if as_expr:
                 try:
@@ -807,12 +837,52 @@ def c13(ctx):
                     laid_out = True
                 except Exception:  # noqa
                     pass
+            decorated = False
+            if n_eval % 3 == 0:
+                # nodes are decorated (public API: add_class / clear_classes) before the tree is copied
+                try:
+                    objs[n_eval % len(objs)].add_class("hl")
+                    objs[(n_eval // 3) % len(objs)].add_class(["a", "b"])
+                    if len(objs) > 2:
+                        objs[(n_eval // 7) % len(objs)].clear_classes()
+                    decorated = True
+                except Exception:  # noqa
+                    pass
             sig = expr_signature(root)
             try:
                 c = root.clone()
             except Exception as e:  # noqa
                 bad.append({"tree": core.tuple_str(t), "problem": "clone raised " + type(e).__name__})
                 continue
+            # no mutable attribute value (list / dict / set) of a node is shared with its copy, and decorating
+            # one tree afterwards leaves the other as it was
+            cobjs_ = core.inorder(c)
+            if len(cobjs_) == len(objs):
+                for o_, c_ in zip(objs, cobjs_):
+                    shared = [k_ for k_, v_ in vars(o_).items()
+                              if isinstance(v_, (list, dict, set)) and vars(c_).get(k_) is v_]
+                    if shared:
+                        bad.append({"tree": core.tuple_str(t), "problem": "a node and its copy share a mutable attribute "
+                                    "object: changing one changes the other", "attributes": shared, "decorated_before": decorated})
+                        break
+                try:
+                    before_o = [sorted(map(str, getattr(o_, "classes", []))) for o_ in objs]
+                    before_c = [sorted(map(str, getattr(c_, "classes", []))) for c_ in cobjs_]
+                    ml_o = root.to_math_ml()
+                    for c_ in cobjs_:
+                        c_.add_class("after-clone")
+                    if [sorted(map(str, getattr(o_, "classes", []))) for o_ in objs] != before_o or root.to_math_ml() != ml_o:
+                        bad.append({"tree": core.tuple_str(t), "problem": "add_class on the clone changed the original",
+                                    "decorated_before": decorated})
+                    after_c = [sorted(map(str, getattr(c_, "classes", []))) for c_ in cobjs_]
+                    for o_ in objs:
+                        o_.add_class("after-clone-2")
+                    if [sorted(map(str, getattr(c_, "classes", []))) for c_ in cobjs_] != after_c:
+                        bad.append({"tree": core.tuple_str(t), "problem": "add_class on the original changed the clone",
+                                    "decorated_before": decorated})
+                    del before_c
+                except Exception:  # noqa
+                    pass
             fr = foreign_refs(objects(c), {id(o) for o in objs})
             if fr:
                 bad.append({"tree": core.tuple_str(t), "problem": "the clone refers to node objects of the original",
